@@ -16,6 +16,12 @@ Lemma current_wp_storage_independent : forall depth warn l, forallb safe_fsum l 
     whole_program depth warn (map (fun s => load gen_names (store gen_names s)) l) = whole_program depth warn l.
 Proof. intros. apply wp_storage_independent; [exact current_names_ok|assumption]. Qed.
 
+Lemma current_wp_storage_independent_multicfg : forall depth warn (files : list (list fsum)),
+    forallb (forallb safe_fsum) files = true ->
+    whole_program depth warn (concat (map (fun cfgs => load_file gen_names (store_file gen_names cfgs)) files))
+    = whole_program depth warn (concat files).
+Proof. intros. apply wp_storage_independent_multicfg; [exact current_names_ok|assumption]. Qed.
+
 (* ids and argument names are written through ErrorLogger::toxml (fix cf4f724): obligation on the source *)
 Definition ids_escb (nm : names) : bool := e_callid nm && e_ncmyid nm && e_uumyid nm && e_uuarg nm.
 
